@@ -45,11 +45,11 @@ type eCase struct {
 func fieldName(f int) be.BEField { return be.BEField(fmt.Sprintf("f%d", f)) }
 
 // silent logger: debug options log through be.Logger
-type nullLogger struct{ n int }
+type nullLogger struct{}
 
-func (l *nullLogger) Debugf(string, ...interface{}) { l.n++ }
-func (l *nullLogger) Infof(string, ...interface{})  { l.n++ }
-func (l *nullLogger) Errorf(string, ...interface{}) { l.n++ }
+func (l *nullLogger) Debugf(string, ...interface{}) {}
+func (l *nullLogger) Infof(string, ...interface{})  {}
+func (l *nullLogger) Errorf(string, ...interface{}) {}
 
 func init() { be.Logger = &nullLogger{} }
 
